@@ -255,3 +255,64 @@ def run_filter_cases(table, frontend="wsgi"):
         return out
     finally:
         w.close()
+
+
+# --- free-busy-query (extension beyond the listed properties) --------------------------
+
+def run_freebusy_cases(cases, frontend="wsgi"):
+    import datetime as _dt
+    import re
+    sc = Scenario(None, "utc")
+    w = World(frontend=frontend, prefix="/")
+    out = []
+    try:
+        k = 0
+        for t in cases:
+            c = t["c"]
+            if c["kind"] != "VEVENT":
+                continue
+            for transp, status in (("OPAQUE", "CONFIRMED"), ("TRANSPARENT", "CONFIRMED"),
+                                   ("OPAQUE", "CANCELLED"), ("OPAQUE", "TENTATIVE")):
+                if (transp, status) != ("OPAQUE", "CONFIRMED") and k % 3:
+                    k += 1
+                    continue
+                k += 1
+                p = "/user/calendars/fb%04d/" % k
+                w.request("MKCALENDAR", p)
+                data = time_case_ics(sc, c, "fb-%d" % k).replace(
+                    b"SUMMARY:case", ("SUMMARY:case\r\nTRANSP:%s\r\nSTATUS:%s" % (transp, status)).encode())
+                r = w.request("PUT", p + "e.ics", [("Content-Type", "text/calendar")], data)
+                if r.status not in (201, 204):
+                    continue
+                body = ('<?xml version="1.0"?><C:free-busy-query %s><C:time-range start="%s" end="%s"/>'
+                        '</C:free-busy-query>' % (NS, sc.utc(2), sc.utc(4))).encode()
+                r = w.request("REPORT", p, [("Content-Type", "text/xml"), ("Depth", "1")], body)
+                rec = {"c": c, "transp": transp, "status": status, "got": [-1, -1], "err": ""}
+                if r.status != 200:
+                    rec["err"] = "status %d" % r.status
+                else:
+                    periods = []
+                    for ln in alpha.unfold(r.body):
+                        name, params, value = alpha.split_content_line(ln)
+                        if name == b"FREEBUSY" and value:
+                            periods.extend(value.decode().split(","))
+                    if len(periods) > 1:
+                        rec["err"] = "several periods"
+                    elif periods:
+                        a, _, b = periods[0].partition("/")
+
+                        def grid(ts):
+                            d = _dt.datetime.strptime(ts, "%Y%m%dT%H%M%SZ").replace(tzinfo=_dt.timezone.utc)
+                            return int(round((d - sc.instant(0)) / UNIT))
+                        g0 = grid(a)
+                        if b.startswith("P") or b.startswith("-P"):
+                            m = re.fullmatch(r"P(?:(\d+)D)?(?:T(?:(\d+)H)?(?:(\d+)M)?(?:(\d+)S)?)?", b)
+                            hrs = (int(m.group(1) or 0) * 24 + int(m.group(2) or 0)) if m else 0
+                            g1 = g0 + hrs // 12
+                        else:
+                            g1 = grid(b)
+                        rec["got"] = [g0, g1]
+                out.append(rec)
+        return out
+    finally:
+        w.close()
